@@ -355,6 +355,17 @@ class RelayMode(vlib.Mode):
                                    "/session/{t}.x", "/session/{t}/{t}", "/shell/{t}", "/Session/{t}", "/session/{t}", "/session/{t}/more"])
                 case.append(f"ws {hx(tmpl.format(t=t))} c{len(st['codes']) - 1}")
             case.append("members")
+        if rng.random() < 0.3:
+            # scope names that differ from `read` / `write` by letter case, blanks or plural only: they carry no capability
+            now = st["now"]
+            t = rng.choice(TOPICS[:3])
+            for _ in range(rng.choice([1, 2])):
+                sc = rng.choice([["READ"], ["Write"], ["read", "Write"], ["write", "READ"], ["Read", "WRITE"], ["rEAD"], ["WRITE", "read"], ["READ", "write"],
+                                 ["read ", "write"], [" write", "read"], ["reads", "write"], ["read", "writes"], ["Read"], ["wRITE", "Read", "host"]])
+                case.append(f"session {tok(now, topic=sval(t), bid=sval('b-case'), scopes=lval(sc))} {hx(t)}")
+                st["codes"].append(t)
+                case.append(f"ws {hx('/session/' + t)} c{len(st['codes']) - 1}")
+            case.append("members")
         # The relay's expiry timers run on REAL time while the cases run on a virtual clock: a connection admitted within a few (virtual)
         # seconds of its token's expiry would really be closed a moment later — or, at exp - now == 0, at once, racing with the very
         # observation of the admission. Such admissions are the business of the real-time expiry mode (C06); here every websocket
